@@ -37,5 +37,5 @@ func (e *ExtOp) Do(ctx ActionContext) error {
 }
 
 func (e *ExtOp) CloneWith(_ ActionContext) Action {
-	return &ExtOp{Function: e.Function}
+	return &ExtOp{Function: e.Function, Args: e.Args}
 }
